@@ -79,6 +79,9 @@ PROBES = {'C04': (
      'unrealistic-mix', 'realistic-mix', 'segmented-delivery', 'split-inside-crlf']
 )}
 
+# reach probes of the "long-lived application" runs (DESIGN section 12.1), tracked like the others
+PROBES['C04'] = list(PROBES['C04']) + ['more-than-128-sessions']
+
 SIGNALS = 'RELOAD SHUTDOWN DUMP DEBUG HALT NEWNYM CLEARDNSCACHE'
 EVENTS = 'CIRC STREAM ORCONN BW NOTICE WARN ERR ADDRMAP STATUS_CLIENT CONF_CHANGED HS_DESC'
 
